@@ -16,7 +16,7 @@ vars == <<l, bterm, sterm, bclosed, sclosed, q, pend, estPeer, estDir, expect, a
 Ids == 1..24
 Peers == 0..3
 PROP == IF "PROP" \in DOMAIN IOEnv THEN IOEnv.PROP ELSE "ALL"
-G(p, c) == IF PROP # p /\ PROP # "ALL" THEN TRUE ELSE c     \* guard c belongs to property p (IF, not \/: TLC explores both branches of an action-level disjunction)
+G(p, c) == IF PROP # p /\ PROP # "ALL" THEN TRUE ELSE (c) = TRUE     \* guard c belongs to property p (IF, not \/: TLC explores both branches of an action-level disjunction)
 
 R == Rec[l]
 Init == /\ l = 1 /\ InitReg
